@@ -282,6 +282,8 @@ impl ExtendedHeader {
         ))]
         {
             let now = Time::now();
+            #[cfg(eigerco_lumina_verif)]
+            let now = verif_clock::now_override().unwrap_or(now);
             let valid_until = now.checked_add(VERIFY_CLOCK_DRIFT).unwrap();
 
             if !untrusted.time().before(valid_until) {
@@ -454,6 +456,30 @@ impl ExtendedHeader {
         }
 
         self.verify_range(untrusted)
+    }
+}
+
+/// Clock override for the external verification harness (compiled only with
+/// `--cfg eigerco_lumina_verif`): lets a check place `ExtendedHeader::verify`'s notion of "now"
+/// exactly on the clock-drift boundary. Thread-local, `None` (the default) = wall clock.
+#[cfg(eigerco_lumina_verif)]
+pub mod verif_clock {
+    use std::cell::Cell;
+
+    use tendermint::Time;
+
+    thread_local! {
+        static NOW: Cell<Option<Time>> = const { Cell::new(None) };
+    }
+
+    /// Set (or clear with `None`) the time `ExtendedHeader::verify` uses as "now" on this thread.
+    pub fn set(now: Option<Time>) {
+        NOW.with(|c| c.set(now));
+    }
+
+    /// The override currently in force on this thread.
+    pub fn now_override() -> Option<Time> {
+        NOW.with(|c| c.get())
     }
 }
 
